@@ -38,6 +38,10 @@ pub struct FormsCase {
     pub blank_positions: Vec<usize>,
     pub times: Vec<Option<(f64, f64)>>,
     pub speed: f64,
+    /// Some(fp): the engine first serves a request with the voice's own frame period, then the
+    /// frame period is changed to fp; everything is compared on this USED engine and against a
+    /// fresh engine brought to the same settings
+    pub used_engine: Option<usize>,
 }
 
 pub struct InputForms;
@@ -80,12 +84,37 @@ impl Prop for InputForms {
         let blank_positions = (0..nb).map(|_| t.below(n + 1)).collect();
         let times = if t.chance(0.6) { gen_text_times(t, n, 50000.0, 20.0, 5.9e9) } else { vec![None; n] };
         let speed = if t.chance(0.3) { t.log_uniform(0.5, 2.0) } else { 1.0 };
-        FormsCase { voice, source: src.name().into(), labels, blank_positions, times, speed }
+        let used_engine = if t.chance(0.3) { Some(*t.pick(&[80usize, 120, 200, 40, 300])) } else { None };
+        FormsCase { voice, source: src.name().into(), labels, blank_positions, times, speed, used_engine }
     }
     fn check(&self, c: &FormsCase) -> Result<Report, Failure> {
         let (mut engine, _) = build_engine(&c.voice)?;
         engine.condition.set_speed(c.speed);
         let lines = &c.labels;
+        let fresh_engine = |alignment: bool| -> Result<Engine, Failure> {
+            let (mut f, _) = build_engine(&c.voice)?;
+            f.condition.set_speed(c.speed);
+            if let Some(fp) = c.used_engine {
+                f.condition.set_fperiod(fp);
+            }
+            f.condition.set_phoneme_alignment_flag(alignment);
+            Ok(f)
+        };
+        if let Some(fp) = c.used_engine {
+            // an earlier request (time-stamped strings) under the voice's own frame period
+            let first = timed_lines(lines, &c.times);
+            let n = first.len().min(2);
+            if n > 0 {
+                let mut warm = engine.clone();
+                warm.condition.set_phoneme_alignment_flag(true);
+                if warm.generator(&first[..n]).map(|g| crate::engine_util::trajectories(&g).lf0.len() * warm.condition.get_fperiod() <= 200_000).unwrap_or(false) {
+                    engine.condition.set_phoneme_alignment_flag(true);
+                    let _ = engine.synthesize(&first[..n]);
+                    engine.condition.set_phoneme_alignment_flag(false);
+                }
+            }
+            engine.condition.set_fperiod(fp);
+        }
         let frames = match catch(|| engine.generator(lines.as_slice()).map(|g| crate::engine_util::trajectories(&g).lf0.len() * engine.condition.get_fperiod())) {
             Ok(Ok(n)) => n,
             Ok(Err(e)) => fail!("generator", "{}", e),
@@ -103,6 +132,7 @@ impl Prop for InputForms {
             Ok(())
         };
         let strs: Vec<&str> = lines.iter().map(|s| s.as_str()).collect();
+        cmp("a fresh engine with the same settings", &run("fresh engine", fresh_engine(false)?.synthesize(lines.as_slice()))?)?;
         cmp("&[&str]", &run("&[&str]", engine.synthesize(strs.as_slice()))?)?;
         cmp("Vec<String>", &run("Vec<String>", engine.synthesize(lines.clone()))?)?;
         let parsed = match parse_lines(lines) {
@@ -142,6 +172,7 @@ impl Prop for InputForms {
                 Ok(())
             };
             let tstrs: Vec<&str> = timed.iter().map(|s| s.as_str()).collect();
+            cmp_on("a fresh engine with the same settings", &run("fresh engine on", fresh_engine(true)?.synthesize(timed.as_slice()))?)?;
             cmp_on("&[&str]", &run("&[&str] on", aligned.synthesize(tstrs.as_slice()))?)?;
             cmp_on("Vec<String>", &run("Vec<String> on", aligned.synthesize(timed.clone()))?)?;
             if let Some(r) = synth_array(&aligned, &timed) {
@@ -168,6 +199,7 @@ impl Prop for InputForms {
         rep.class_if(has_times, "with-times");
         rep.class_if(!c.blank_positions.is_empty(), "with-blank-lines");
         rep.class(c.voice.class());
+        rep.class_if(c.used_engine.is_some(), "used-engine-then-frame-period-changed");
         Ok(rep)
     }
 }
